@@ -10,6 +10,7 @@ import (
 	"fmt"
 	"math"
 	"os"
+	"slices"
 	"sort"
 	"strings"
 	"sync"
@@ -40,6 +41,8 @@ type schedule struct {
 	Cfg         clusterCfg
 	FaultPhases int
 	MaxTxs      int
+	Scen        string      // "" = random fault phases; otherwise a scripted schedule (scen_test.go)
+	Rounds      []scenRound // the scripted rounds
 }
 
 func makeSchedule(idx int) schedule {
@@ -122,6 +125,18 @@ type attempt struct {
 	nonce  atomic.Uint32
 	txLeft int
 	govTxs []util.Uint256
+
+	stopFeed   chan struct{}
+	wgFeed     sync.WaitGroup
+	feedOnce   sync.Once
+	lockHeight uint32
+}
+
+func (a *attempt) stopFeeder() {
+	a.feedOnce.Do(func() {
+		close(a.stopFeed)
+		a.wgFeed.Wait()
+	})
 }
 
 // waitUntil polls cond every quarter block interval.
@@ -264,6 +279,12 @@ func (a *attempt) syncer(stop chan struct{}, wg *sync.WaitGroup) {
 // the validators' pools.
 func (a *attempt) feeder(stop chan struct{}, wg *sync.WaitGroup) {
 	defer wg.Done()
+	if a.sc.Scen != "" {
+		// scripted schedules: a light, steady load pooled everywhere or at
+		// random subsets
+		a.steadyFeeder(stop)
+		return
+	}
 	r := rng.New(uint64(390000 + a.sc.Idx))
 	cl := a.cl
 	n := len(cl.nodes)
@@ -316,6 +337,34 @@ func (a *attempt) feeder(stop chan struct{}, wg *sync.WaitGroup) {
 			a.submit(tx, subset)
 			a.net.count("txs_submitted", 1)
 		}
+	}
+}
+
+func (a *attempt) steadyFeeder(stop chan struct{}) {
+	r := rng.New(uint64(390000 + a.sc.Idx))
+	n := len(a.cl.nodes)
+	for a.txLeft > 0 {
+		select {
+		case <-stop:
+			return
+		case <-time.After(blockTime * time.Duration(2+r.Intn(3))):
+		}
+		a.txLeft--
+		tx := a.newTransfer(r, maxU32(a.cl.heights())+30+uint32(r.Intn(40)))
+		subset := a.allNodes()
+		if r.Intn(3) == 0 {
+			subset = nil
+			for i := 0; i < n; i++ {
+				if r.Bool() {
+					subset = append(subset, i)
+				}
+			}
+			if len(subset) == 0 {
+				subset = []int{r.Intn(n)}
+			}
+		}
+		a.submit(tx, subset)
+		a.net.count("txs_submitted", 1)
 	}
 }
 
@@ -456,17 +505,42 @@ func runAttempt(t testing.TB, sc schedule) (res *attemptResult, setupErr error) 
 			return nil, fmt.Errorf("validator order differs from node order at %d", i)
 		}
 	}
-	a := &attempt{t: t, sc: sc, cl: cl, net: net, sr: rng.New(uint64(190000 + sc.Idx)), res: res, txLeft: sc.MaxTxs}
+	a := &attempt{t: t, sc: sc, cl: cl, net: net, sr: rng.New(uint64(190000 + sc.Idx)), res: res, txLeft: sc.MaxTxs, stopFeed: make(chan struct{})}
 	res.rec = cl.rec
 	cl.start()
 	stop := make(chan struct{})
-	stopFeed := make(chan struct{})
-	var wg, wgFeed sync.WaitGroup
+	var wg sync.WaitGroup
 	wg.Add(1)
 	go a.syncer(stop, &wg)
-	wgFeed.Add(1)
-	go a.feeder(stopFeed, &wgFeed)
+	a.wgFeed.Add(1)
+	go a.feeder(a.stopFeed, &a.wgFeed)
 
+	if sc.Scen != "" {
+		a.scenario()
+	} else {
+		a.randomPhases()
+	}
+	a.stopFeeder()
+	close(stop)
+	wg.Wait()
+	res.heights = cl.heights()
+	if !net.close(20 * time.Second) {
+		res.problems = append(res.problems, "network did not drain in 20 s (a receiver is blocked)")
+	}
+	res.problems = append(res.problems, cl.stop()...)
+	res.net = net.snapshot()
+	if len(res.problems) == 0 {
+		res.an = analyze(cl)
+	}
+	cl.closeLedgers()
+	res.wall = time.Since(t0)
+	return res, nil
+}
+
+// randomPhases: fault steps drawn independently from the seed alternate with
+// quiet phases.
+func (a *attempt) randomPhases() {
+	sc, cl, net, cfg := a.sc, a.cl, a.net, a.sc.Cfg
 	n, f := cfg.Nodes(), cfg.F()
 	ok := a.quiet(2, false) // the network starts
 	registered := false
@@ -515,8 +589,7 @@ func runAttempt(t testing.TB, sc schedule) (res *attemptResult, setupErr error) 
 		}
 		ok = a.quiet(2+a.sr.Intn(2), false)
 	}
-	close(stopFeed)
-	wgFeed.Wait()
+	a.stopFeeder()
 	if ok {
 		// final quiet phase: every validator gets its turn as primary, and a
 		// configured change of the validator count is well behind
@@ -526,20 +599,6 @@ func runAttempt(t testing.TB, sc schedule) (res *attemptResult, setupErr error) 
 		}
 		a.quiet(want, true)
 	}
-	close(stop)
-	wg.Wait()
-	res.heights = cl.heights()
-	if !net.close(20 * time.Second) {
-		res.problems = append(res.problems, "network did not drain in 20 s (a receiver is blocked)")
-	}
-	res.problems = append(res.problems, cl.stop()...)
-	res.net = net.snapshot()
-	if len(res.problems) == 0 {
-		res.an = analyze(cl)
-	}
-	cl.closeLedgers()
-	res.wall = time.Since(t0)
-	return res, nil
 }
 
 func TestCheck(t *testing.T) {
@@ -561,8 +620,16 @@ func TestCheck(t *testing.T) {
 		smu  sync.Mutex
 		live = map[string]bool{}
 	)
+	var scheds []schedule
 	for idx := 0; idx < nSched; idx++ {
-		sc := makeSchedule(idx)
+		scheds = append(scheds, makeSchedule(idx))
+	}
+	// the scripted schedules go first: a stalled one is repeated twice
+	scheds = append(scenSchedules(), scheds...)
+	if v := os.Getenv("C19_ONLY"); v != "" { // development aid: prefix filter
+		scheds = slices.DeleteFunc(scheds, func(s schedule) bool { return !strings.HasPrefix(s.ID, v) })
+	}
+	for _, sc := range scheds {
 		if !run.Want(sc.ID) {
 			continue
 		}
@@ -590,7 +657,7 @@ func TestCheck(t *testing.T) {
 }
 
 func runSchedule(t *testing.T, run *ev.Run, sc schedule) {
-	var stalls []string
+	var stalls, stallSigs []string
 	var last *attemptResult
 	for att := 1; att <= 3; att++ {
 		res, err := runAttempt(t, sc)
@@ -609,12 +676,19 @@ func runSchedule(t *testing.T, run *ev.Run, sc schedule) {
 			break
 		}
 		stalls = append(stalls, res.stall+": "+res.stallMsg)
+		stallSigs = append(stallSigs, res.stall)
 		run.Obs("stalled_attempts", 1)
 		if run.HasViolations() && len(res.an.findings) > 0 {
 			break // a safety finding explains the stall; no need to retry
 		}
 	}
-	if len(stalls) == 3 {
+	sameStall := true
+	for _, s := range stallSigs {
+		sameStall = sameStall && s == stallSigs[0]
+	}
+	if len(stalls) == 3 && !sameStall {
+		run.Inconclusive("%s: three attempts stalled, but not at the same point (%v): %s", sc.ID, stallSigs, strings.Join(stalls, " | "))
+	} else if len(stalls) == 3 {
 		run.Violation(last.stall, sc.ID, fmt.Sprintf("%s (%s): three consecutive fresh attempts failed: %s", sc.ID, sc.Cfg, strings.Join(stalls, " | ")),
 			witness(sc, last, map[string]any{"stalls": stalls}))
 	} else if len(stalls) > 0 {
@@ -624,6 +698,9 @@ func runSchedule(t *testing.T, run *ev.Run, sc schedule) {
 
 func witness(sc schedule, res *attemptResult, extra map[string]any) map[string]any {
 	w := map[string]any{"schedule": sc.ID, "config": sc.Cfg.String(), "steps": res.steps, "heights": res.heights, "network": res.net}
+	if sc.Scen != "" {
+		w["scripted_rounds"] = fmt.Sprint(sc.Rounds)
+	}
 	rec := res.rec
 	rec.mu.Lock()
 	evs := rec.events
@@ -665,6 +742,8 @@ func report(run *ev.Run, sc schedule, att int, res *attemptResult) {
 		}
 	}
 	events := int64(len(rec.events))
+	run.Obs("chain_events_handled_with_ledger_ahead", rec.ledgerAhead)
+	run.Obs("commits_sent_from_a_burst_initialisation", rec.commitsAfterBurstInit)
 	rec.mu.Unlock()
 	run.Obs("event_log_entries", events)
 	var kinds []string
@@ -693,9 +772,21 @@ func report(run *ev.Run, sc schedule, att int, res *attemptResult) {
 	for _, f := range res.an.findings {
 		run.Violation(f.Sig, sc.ID, fmt.Sprintf("%s attempt %d (%s): %s", sc.ID, att, sc.Cfg, f.Detail), witness(sc, res, f.Witness))
 	}
+	cfgSig := sc.Cfg.String()
+	if sc.Scen != "" {
+		cfgSig = "scripted:" + sc.Scen + " " + cfgSig
+	}
 	sig := fmt.Sprintf("%s faults=%s viewchange=%v recovery=%v reqtx=%v sync=%v dup=%v reorder=%v",
-		sc.Cfg, strings.Join(kinds, ","), viewChanges > 0, recoveries > 0, res.net["delivered_tx"] > 0, res.net["delivered_syncblock"] > 0, res.net["duplicated"] > 0, res.net["reordered"] > 0)
+		cfgSig, strings.Join(kinds, ","), viewChanges > 0, recoveries > 0, res.net["delivered_tx"] > 0, res.net["delivered_syncblock"] > 0, res.net["duplicated"] > 0, res.net["reordered"] > 0)
 	nontrivial := res.faultBlocks > 0 && res.an.obs["heights_agreed"] > 0 && res.an.obs["node_height_hashes_compared"] > 0
+	if sc.Scen != "" {
+		// scripted: the situation was really built (commit lock observed at the
+		// Broadcast boundary / a backlog of >= 2 blocks delivered in one burst)
+		// and the ledgers were compared
+		built := res.net["commit_lock_rounds_established"] + res.net["backlog_rounds"] + res.net["epoch_burst_rounds"]
+		nontrivial = built > 0 && res.an.obs["heights_agreed"] > 0 && res.an.obs["node_height_hashes_compared"] > 0
+		sig += fmt.Sprintf(" built=%d", built)
+	}
 	if res.stall == "" || att == 3 || len(res.an.findings) > 0 {
 		run.Case(sig, nontrivial)
 	}
